@@ -266,6 +266,51 @@ static OpResult runOp(const Case& c)
                 }
             }
         }
+        else if (op == "st_dynamic_ok" || op == "st_guided_ok" || op == "st_dynamic_ull_ok" || op == "st_dynamic_for_ok" ||
+                 op == "st_dynamic_serial_ok") {
+            // every iteration exactly once, whatever the schedule kind / loop variable type / combined or not
+            if (op == "st_dynamic_ok") {
+#pragma omp parallel for schedule(dynamic)
+                for (int i = 0; i < n; i++)
+                    pb[i] += 1.0;
+            }
+            else if (op == "st_guided_ok") {
+#pragma omp parallel for schedule(guided, 2)
+                for (int i = n - 1; i >= 0; i--)
+                    pb[i] += 1.0;
+            }
+            else if (op == "st_dynamic_ull_ok") {
+#pragma omp parallel for schedule(dynamic, 3)
+                for (std::size_t i = 0; i < (std::size_t)n; i++)
+                    pb[i] += 1.0;
+            }
+            else if (op == "st_dynamic_for_ok") {
+#pragma omp parallel
+                {
+#pragma omp for schedule(dynamic, 5) nowait
+                    for (int i = 0; i < n / 2; i++)
+                        pb[i] += 1.0;
+#pragma omp for schedule(dynamic, 1)
+                    for (int i = n / 2; i < n; i++)
+                        pb[i] += 1.0;
+                }
+            }
+            else {
+#pragma omp parallel for schedule(dynamic) if (n > 1000)
+                for (int i = 0; i < n; i++)
+                    pb[i] += 1.0;
+            }
+            for (int i = 0; i < n; i++)
+                if (pb[i] != 1.0)
+                    throw std::runtime_error("iteration " + std::to_string(i) + " executed " + std::to_string((int)pb[i]) + " times");
+        }
+        else if (op == "st_dynamic_neighbour_bad") {
+#pragma omp parallel for schedule(dynamic)
+            for (int i = 0; i < n - 1; i++) {
+                pb[i] += pa[i];
+                pb[i + 1] += 0.5 * pa[i];
+            }
+        }
         else
             throw std::runtime_error("unknown self-test " + op);
         R.y.insert(R.y.end(), a.begin(), a.end());
@@ -508,7 +553,7 @@ int main(int argc, char** argv)
             const bool all   = c.str("perms", "few") == "all";
             g_revOnly        = c.str("perms", "few") == "rev";
             const bool audit = c.i("audit", 0) != 0;
-            long schedules = 0, epochs = 0, blocks = 0, accesses = 0, conflicts = 0, granules = 0, pairs = 0, writerEpochs = 0, criticals = 0,
+            long schedules = 0, epochs = 0, blocks = 0, accesses = 0, conflicts = 0, granules = 0, pairs = 0, writerEpochs = 0, criticals = 0, dynChunks = 0,
                  memops = 0, auditBlocks = 0, auditUnlogged = 0, regions = 0, sigMismatch = 0, outMismatch = 0;
             std::set<uint64_t> outs, scalarSets;
             std::vector<std::vector<double>> scalarVals;
@@ -529,6 +574,7 @@ int main(int argc, char** argv)
                 pairs += st.pair_checks;
                 writerEpochs += st.writer_epochs;
                 criticals += st.critical_sections;
+                dynChunks += st.dynamic_chunks;
                 memops += st.memops;
                 auditBlocks += st.audit_blocks;
                 auditUnlogged += st.audit_unlogged_bytes;
@@ -629,7 +675,7 @@ int main(int argc, char** argv)
             bin.mat(id + "/s", (uint32_t)scalarVals.size(), (uint32_t)(scalarVals.empty() ? 0 : scalarVals[0].size()), flat.data());
             os << "status=ok mode=engine schedules=" << schedules << " regions=" << regions << " epochs=" << epochs
                << " baseepochs=" << base.multi_epochs << " blocks=" << blocks << " accesses=" << accesses << " granules=" << granules
-               << " pairs=" << pairs << " criticals=" << criticals << " writerepochs=" << writerEpochs << " memops=" << memops << " conflicts=" << conflicts
+               << " pairs=" << pairs << " criticals=" << criticals << " dynchunks=" << dynChunks << " writerepochs=" << writerEpochs << " memops=" << memops << " conflicts=" << conflicts
                << " sigmismatch=" << sigMismatch << " outmismatch=" << outMismatch << " distinctout=" << outs.size()
                << " distinctscal=" << scalarSets.size() << " auditblocks=" << auditBlocks << " auditunlogged=" << auditUnlogged
                << " diverged=" << diverged << " out=" << baseOut << " conflict=" << (conflictText.empty() ? "-" : conflictText)
